@@ -24,6 +24,7 @@ impl NodeState {
 }
 
 //@include prelude/forward_spec.rs
+//@include prelude/reach_spec.rs
 //@include prelude/sem_spec.rs
 
 // rule I17: `T.children(I).filter(|child| child.target_value.state.is_feasible() / is_infeasible()).[map(|x| x.edge()).]collect_vec()` (verified helper):
